@@ -49,6 +49,13 @@ def gen_case(rng, tier, idx):
     if idx % 20 == 3 and not big:
         nkeys, kind = (7000 if tier == "quick" else 12000), "biguint"          # tall tree (height 3 with small cells)
         cfg = "%d,%d,%d,%d" % (page, 4000, rng.choice([3, 4, 8]), rng.choice([1, 2, 3]))   # a scan pins every leaf it visits
+    tall4 = idx % 20 == 13 and not big and not bigkeys
+    if tall4:
+        # four levels inside the clean class: every payload just under a twentieth of a 4 KiB page (fan-out about 14 in
+        # leaves and in interior pages, whose dividers are copies of leaf cells), so that interior pages with an
+        # interior parent that has siblings are split and merged
+        nkeys, kind, page = (7000 if tier == "quick" else 12000), "biguint", 4096
+        cfg = "%d,%d,%d,%d" % (page, 8000, rng.choice([3, 4]), rng.choice([1, 2]))
     keys = gen_keys(rng, kind, nkeys) if nkeys < 2000 else sorted(rng.sample(range(0, 10 ** 6), nkeys))
     if bigkeys:
         base = 2 ** 63 - 300 if kind == "bigint" else 2 ** 64 - 300
@@ -57,8 +64,12 @@ def gen_case(rng, tier, idx):
     def ln():
         if big:
             return rng.choice([0, 3, 40, 200, 400, 900, 1300, 2500, 5000, 12000, 20000])
+        if tall4:
+            return page // 20 - 30
         return rng.choice([0, 1, 5, 20, 60, 120, page // 20 - 30])
     pattern = rng.choice(["random", "seq", "rev", "random", "zigzag"])
+    if tall4:
+        pattern = "random"
     order = list(keys)
     if pattern == "rev":
         order.reverse()
@@ -481,7 +492,7 @@ class C10(Spec):
     theorems = ["C10_checker_sound", "C10_map_refinement", "C10_page_refines_list", "C10_page_insert_complete"]
     rule = ("one tree per case through the facade: key types BIGUINT, BIGINT (negative values), TEXT (prefixes, empty, non-ASCII, "
             "different lengths) and (BIGINT, TEXT); page 4/8/16 KiB, cache 64-2000, minimum keys 3/4/8, siblings 1-3; 8-200 keys "
-            "(7000 in one case per twenty, which gives height 3) inserted in random / ascending / descending / zigzag order, then "
+            "(7000 in two cases per twenty: small cells give height 3, cells just under a twentieth of a 4 KiB page give height 4) inserted in random / ascending / descending / zigzag order, then "
             "upserts, updates (growing and shrinking payloads), removals, lookups, in 40% of the cases delete-everything-then-"
             "reinsert; scans and full page-graph dumps in between.  Payloads up to a twentieth of the page in the clean class; up to "
             "20000 bytes (overflow chains) in the recorded class large-cells.  Oracles independent of the models: every answer "
